@@ -255,14 +255,26 @@ def bv_binop(I, op, a, b):
     return mk_int(z3.BV2Int(r, False))
 
 
-def record_bounds(I, t, lo, hi):
+def _trunc_arg(t):
+    """v when t is the engine's model of int(v) for a real v, If(v >= 0, ToInt(v), -ToInt(-v)); else None"""
+    if z3.is_app_of(t, z3.Z3_OP_ITE):
+        c, a, b = t.children()
+        if z3.is_app_of(a, z3.Z3_OP_TO_INT) and z3.is_app_of(c, z3.Z3_OP_GE):
+            v = a.arg(0)
+            if c.arg(0).eq(v) and z3.is_rational_value(c.arg(1)) and c.arg(1).as_fraction() == 0 and \
+                    z3.simplify(-z3.ToInt(-v)).eq(b):
+                return v
+    return None
+
+
+def record_bounds(I, t, lo, hi, fact=None):
     """(C13) lo <= t <= hi has just been PROVED valid under the path condition: keep it as a fact of the path (sound:
     it is implied) so that later queries get it as a linear fact, and remember it for syn_bounds"""
     tb = getattr(I.path, 'term_bounds', None)
     if tb is None:
         tb = I.path.term_bounds = {}
     tb[t.get_id()] = (t, lo, hi)
-    I.path.assume(z3.And(t >= lo, t <= hi))
+    I.path.assume(fact if fact is not None else z3.And(t >= lo, t <= hi))
 
 
 def syn_bounds(I, t, depth=0):
@@ -328,8 +340,11 @@ def int_bitop(I, op, a, b):
             lz = low_zero_bits(y)
             if 0 < lz < 10 ** 6 and not isinstance(x, int) and syn_bounds(I, zterm(x)) is None:
                 t = zterm(x)
-                if I.path.must(z3.And(t >= 0, t < _pow2(lz))):
-                    record_bounds(I, t, 0, _pow2(lz) - 1)
+                v = _trunc_arg(t)
+                # int(real): 0 <= v < 2**lz gives 0 <= int(v) < 2**lz, and is a query over the reals only
+                fact = z3.And(v >= 0, v < _pow2(lz)) if v is not None else z3.And(t >= 0, t < _pow2(lz))
+                if I.path.must(fact):
+                    record_bounds(I, t, 0, _pow2(lz) - 1, fact)
                     return mk_int(t + zterm(y))
         for x, y in ((a, b), (b, a)):
             lz = low_zero_bits(y)
@@ -533,7 +548,13 @@ def view_elem(I, v, j):
 
 def view_items(I, v, limit=64):
     n = small_value(I, mk_int(zi(v.ln)), limit)
-    return [view_elem(I, v, i) for i in range(n)]
+    return list(v.pre) + [view_elem(I, v, i) for i in range(n)]
+
+
+def view_like(v, off, ln, kind=None, pre=None):
+    r = SView(v.arr, off, ln, kind or v.kind, pre)
+    r.byte_range = getattr(v, 'byte_range', False)
+    return r
 
 
 def seq_items(v):
@@ -589,9 +610,11 @@ def py_eq(I, a, b):
             return False
         if isinstance(a, SView) or isinstance(b, SView):
             if isinstance(a, SView) and isinstance(b, SView):
+                if len(a.pre) != len(b.pre):
+                    raise OutOfSubset('== between views with different concrete prefixes')
                 if a.arr.eq(b.arr) if hasattr(a.arr, 'eq') else False:
                     same = z3.And(zi(a.ln) == zi(b.ln), z3.Or(zi(a.ln) == 0, zi(a.off) == zi(b.off)))
-                    r = mk_bool(same)
+                    r = conj(I, [mk_bool(same)] + [py_eq(I, x, y) for x, y in zip(a.pre, b.pre)])
                     if r is True or I.spec_mode:
                         # sufficient condition for equality (same window of the same array): sound for PROVING an equality
                         return r
@@ -600,7 +623,11 @@ def py_eq(I, a, b):
             if isinstance(o, SSeq):
                 raise OutOfSubset('== between a view and a z3 sequence')
             items = seq_items(o)
-            return conj(I, [mk_bool(zi(v.ln) == len(items))] + [py_eq(I, mk_int(z3.Select(v.arr, z3.simplify(zi(v.off) + i))), x) for i, x in enumerate(items)])
+            np_ = len(v.pre)
+            if len(items) < np_:
+                return False
+            return conj(I, [mk_bool(zi(v.ln) == len(items) - np_)] + [py_eq(I, x, y) for x, y in zip(v.pre, items[:np_])] +
+                        [py_eq(I, mk_int(z3.Select(v.arr, z3.simplify(zi(v.off) + i))), x) for i, x in enumerate(items[np_:])])
         if isinstance(a, SSeq) or isinstance(b, SSeq):
             return mk_bool(seq_term(a) == seq_term(b))
         ia, ib = seq_items(a), seq_items(b)
@@ -806,18 +833,18 @@ def seq_concat(I, a, b):
     if ka != kb and not ({ka, kb} <= {'bytes', 'bytearray'}):
         I.raise_py('TypeError', 'can only concatenate %s (not "%s") to %s' % (ka, kb, ka))
     if isinstance(a, SView) or isinstance(b, SView):
-        if isinstance(a, SView) and isinstance(b, SView) and a.arr.eq(b.arr):
+        if isinstance(a, SView) and isinstance(b, SView) and a.arr.eq(b.arr) and not b.pre:
             if I.path.must(zi(a.off) + zi(a.ln) == zi(b.off)):
-                r = SView(a.arr, a.off, z3.simplify(zi(a.ln) + zi(b.ln)), ka)
-                r.byte_range = getattr(a, 'byte_range', False)
-                return r
+                return view_like(a, a.off, z3.simplify(zi(a.ln) + zi(b.ln)), ka, a.pre)
+        if isinstance(b, SView) and not isinstance(a, (SView, SSeq)):
+            return view_like(b, b.off, b.ln, ka, seq_items(a) + list(b.pre))
+        if isinstance(a, SView) and not isinstance(b, (SView, SSeq)) and I.path.must(zi(a.ln) == 0):
+            return view_like(a, a.off, a.ln, ka, list(a.pre) + seq_items(b))
         for x, y in ((a, b), (b, a)):
             ly = seq_len(I, y)
             if (isinstance(ly, int) and ly == 0) or (not isinstance(ly, int) and I.path.must(zterm(ly) == 0)):
                 if isinstance(x, SView):
-                    r = SView(x.arr, x.off, x.ln, ka)
-                    r.byte_range = getattr(x, 'byte_range', False)
-                    return r
+                    return view_like(x, x.off, x.ln, ka, x.pre)
                 return mk_seq(ka, seq_items(x))
         raise OutOfSubset('concatenation of symbolic-length views that are not adjacent windows of one array')
     if isinstance(a, SSeq) or isinstance(b, SSeq):
@@ -862,7 +889,7 @@ def seq_len(I, v):
     if isinstance(v, SSeq):
         return mk_int(z3.Length(v.t))
     if isinstance(v, SView):
-        return mk_int(zi(v.ln))
+        return mk_int(zi(v.ln) + len(v.pre))
     if isinstance(v, PDict):
         return len(v.keys)
     if isinstance(v, PSet):
@@ -923,12 +950,17 @@ def seq_getitem(I, v, idx):
     if isinstance(idx, SliceVal):
         return seq_slice(I, v, idx)
     if isinstance(v, SView):
-        n = zi(v.ln)
+        np_ = len(v.pre)
+        n = zi(v.ln) + np_
         t = zterm(idx)
         ok = z3.And(t >= -n, t < n)
         if not I.path.decide(ok):
             I.raise_py('IndexError', '%s index out of range' % v.kind)
         j = z3.simplify(z3.If(t < 0, t + n, t))
+        if np_:
+            if I.path.decide(j < np_):
+                return select(I, v.pre, j) if not z3.is_int_value(j) else v.pre[j.as_long()]
+            j = z3.simplify(j - np_)
         return view_elem(I, v, j)
     if isinstance(v, SSeq):
         n = z3.Length(v.t)
@@ -994,6 +1026,27 @@ def seq_slice(I, v, sl):
                 return v[sl.lo:sl.hi:sl.step]
             return mk_seq(seq_kind(v), seq_items(v)[sl.lo:sl.hi:sl.step])
         raise OutOfSubset('slice step')
+    if isinstance(v, SView) and v.pre:
+        np_ = len(v.pre)
+        lo, hi = sl.lo, sl.hi
+        if lo is None:
+            lo = 0
+        if isinstance(lo, int) and lo >= 0 and isinstance(hi, int) and 0 <= hi <= np_:
+            return mk_seq(v.kind, v.pre[lo:hi])
+        if isinstance(lo, int) and 0 <= lo <= np_:
+            rest = view_like(v, v.off, v.ln, v.kind, None)
+            if hi is None:
+                tail = rest
+            else:
+                h = zterm(hi)
+                if not I.path.must(h >= np_):
+                    raise OutOfSubset('slice of a prefixed view with an upper bound that may fall inside the prefix')
+                tail = seq_slice(I, rest, SliceVal(None, mk_int(h - np_), None))
+            return view_like(tail, tail.off, tail.ln, v.kind, v.pre[lo:])
+        if isinstance(lo, int) and lo > np_ or (not isinstance(lo, int) and I.path.must(zterm(lo) >= np_)):
+            rest = view_like(v, v.off, v.ln, v.kind, None)
+            return seq_slice(I, rest, SliceVal(mk_int(zterm(lo) - np_), None if hi is None else mk_int(zterm(hi) - np_), None))
+        raise OutOfSubset('slice of a prefixed view')
     if isinstance(v, SView):
         n = zi(v.ln)
 
@@ -1004,9 +1057,7 @@ def seq_slice(I, v, sl):
             return z3.If(t < 0, z3.If(t + n < 0, 0, t + n), z3.If(t > n, n, t))
         lo = nbv(sl.lo, z3.IntVal(0))
         hi = nbv(sl.hi, n)
-        r = SView(v.arr, z3.simplify(zi(v.off) + lo), z3.simplify(z3.If(hi > lo, hi - lo, 0)), v.kind)
-        r.byte_range = getattr(v, 'byte_range', False)
-        return r
+        return view_like(v, z3.simplify(zi(v.off) + lo), z3.simplify(z3.If(hi > lo, hi - lo, 0)))
     if isinstance(v, SSeq):
         n = z3.Length(v.t)
 
